@@ -1083,9 +1083,92 @@ def _violation(spec, r, sig, what) -> Violation:
                              "how": "harness.props.c07.replay: real threads under the statement scheduler follow `choices`"})
 
 
+class _Fault(Exception):
+    pass
+
+
+def rollback_reuse_histories() -> tuple[int, list[tuple[str, str, dict]]]:
+    """Sequential histories around a ROLLED-BACK transaction whose stage object is used again (what TransactionHelper's
+    retry does): writer A saves inside store.transaction and a fault rolls it back; optionally writer B commits a change;
+    A saves the SAME object again.  With B in between A must get a ConcurrencyError and B's change must survive; without B
+    A must succeed.  Monitor-only (not in Occ.v's vocabulary).  Returns (histories run, violations)."""
+    lib.ensure_repo_on_path()
+    from stabilize.errors import ConcurrencyError
+    from stabilize.persistence.sqlite.store import SqliteWorkflowStore
+    base = lib.scratch_dir("c07h")
+    tasks = [[1, 1], [2, 0]]
+    tpl, sid, _ = _template(json.dumps([tasks, 1, None]), tasks, 1, base)
+    out, n = [], 0
+    for b_kind in (None, "plain", "txn"):
+        for a_second in ("txn", "plain"):
+            for with_tasks in (False, True):
+                n += 1
+                path = base / ("h-%d-%d.db" % (os.getpid(), n))
+                shutil.copyfile(tpl, path)
+                _reset_manager()
+                store = SqliteWorkflowStore(f"sqlite:///{path}")
+                desc = {"b": b_kind, "a_second": a_second, "task_change": with_tasks}
+                try:
+                    a = store.retrieve_stage(sid)
+                    _apply_mod(a, {"status": None, "tag": 101, "set": ([[1, 3]] if with_tasks else []), "new": []})
+                    try:
+                        with store.transaction(None) as txn:
+                            txn.store_stage(a)
+                            raise _Fault()
+                    except _Fault:
+                        pass
+                    if b_kind:
+                        b = store.retrieve_stage(sid)
+                        _apply_mod(b, {"status": None, "tag": 202, "set": [], "new": []})
+                        if b_kind == "plain":
+                            store.store_stage(b)
+                        else:
+                            with store.transaction(None) as txn:
+                                txn.store_stage(b)
+                    try:
+                        if a_second == "plain":
+                            store.store_stage(a)
+                        else:
+                            with store.transaction(None) as txn:
+                                txn.store_stage(a)
+                        res2 = "ok"
+                    except ConcurrencyError:
+                        res2 = "conc"
+                    row = _read_row(store._get_connection(), sid)
+                    if b_kind and (res2 == "ok" or 202 not in row["log"]):
+                        out.append(("lost-update:rollback-reuse",
+                                    f"writer A's transaction was rolled back after store_stage, writer B then committed tag 202, and A's "
+                                    f"second save of the SAME object returned {res2!r}: the row's log is {row['log']} - B's committed change "
+                                    f"was overwritten without a ConcurrencyError (the rollback did not restore the object's version)", desc))
+                    if not b_kind and res2 != "ok":
+                        out.append(("spurious-conflict:rollback-reuse",
+                                    f"after a rolled-back transaction the same object could not be saved again ({res2}) although nobody else wrote", desc))
+                    if not b_kind and res2 == "ok" and 101 not in row["log"]:
+                        out.append(("lost-own-write:rollback-reuse", f"the retried save reported ok but the row's log is {row['log']}", desc))
+                finally:
+                    store.close()
+                    for ext in ("", "-journal", "-wal", "-shm"):
+                        try:
+                            os.unlink(str(path) + ext)
+                        except FileNotFoundError:
+                            pass
+    return n, out
+
+
 def run(ctx) -> RunResult:
     res = RunResult(rule="a run is non-trivial when at least one save failed with ConcurrencyError (a real conflict was "
                          "exercised); distinct = distinct (spec, executed schedule) pairs")
+    nh = 0
+    try:
+        nh, hv = rollback_reuse_histories()
+        res.evaluations += nh
+        res.distinct_nontrivial += nh
+        res.traces_validated += nh
+        for sig, what, desc in hv:
+            res.violations.append(Violation(what=what, signature=sig, replay={"kind": "rollback_reuse", "history": desc}))
+        res.notes.append(f"{nh} rollback-then-reuse histories (monitor-only)")
+    except Exception as e:  # noqa
+        res.disagreements.append({"what": "rollback-reuse histories crashed", "detail": repr(e)[:400]})
     jobs = gen_specs(ctx)
     t0 = time.time()
     results = run_jobs(jobs)
@@ -1161,7 +1244,7 @@ def run(ctx) -> RunResult:
                 what="retry_on_concurrency_error does not raise ConcurrencyError after its budget is exhausted",
                 signature="retry-swallows", replay={"kind": "retry-probe", "calls": calls}))
     res.extra["engine_pairs_checked_against_serial_execution"] = monitor_only_runs
-    res.evaluations = len(cases) + 1 + monitor_only_runs
+    res.evaluations = len(cases) + 1 + monitor_only_runs + nh
     res.traces_validated = len(cases)
     res.distinct_nontrivial = nontrivial
     res.exhaustive = dist["truncated_specs"] == 0
@@ -1198,7 +1281,14 @@ def search(ctx, broken) -> list:
     return found
 
 
+def _replay_rollback_reuse(obj) -> bool:
+    _, hv = rollback_reuse_histories()
+    return not any(sig == obj.get("signature") for sig, _, _ in hv)
+
+
 def replay(obj) -> bool:
+    if (obj.get("replay") or {}).get("kind") == "rollback_reuse":
+        return _replay_rollback_reuse(obj)
     r = obj["replay"]
     if r.get("kind") == "retry-probe":
         calls, _ = _retry_policy_calls()
